@@ -130,7 +130,23 @@ def apply(world, op, tokinfo):
             if t not in tok.dictionary:
                 tokinfo["inVocab"] = False
         return tok.detokenise(tokens)
-    elif op == "token_roundtrip_plain":
+    elif op == "token_roundtrip_unfused_tail":
+        ws = [s.copy() for s in world]
+        [s.quantise_and_normalise() for s in ws]
+        bars = Sequence.sequences_split_bars(ws, 0)
+        tok = Tokeniser(num_tracks=len(ws), flag_fuse_track=False, flag_fuse_value=False, flag_fuse_velocity=False)
+        state, calls = dict(), []
+        for group in zip(*bars):
+            calls.append(tok.tokenise([b.sequence for b in group], state_dict=state))
+        for t in [t for c in calls for t in c]:
+            for part in t.split("-"):
+                for f in part.split("_")[1:]:
+                    tokinfo["kinds"].add(literal_kind(f))
+            if t not in tok.dictionary:
+                tokinfo["inVocab"] = False
+        # the tokens of the later calls are a legal stream of their own (it starts without value / velocity / track tokens)
+        return tok.detokenise([t for c in calls[(1 if len(calls) > 1 else 0):] for t in c])
+    elif op in ("token_roundtrip_plain", "token_roundtrip_plain_ppqn48"):
         # plain sequences (no bars, signature messages removed): the stream then has bar tokens before any signature token
         ws = []
         for s in world:
@@ -138,7 +154,7 @@ def apply(world, op, tokinfo):
             c.quantise_and_normalise()
             c.overwrite_relative_messages([m for m in c.rel._messages if m.numerator is None])
             ws.append(c)
-        tok = Tokeniser(num_tracks=len(ws))
+        tok = Tokeniser(num_tracks=len(ws)) if op == "token_roundtrip_plain" else Tokeniser(num_tracks=len(ws), ppqn=48)
         tokens = tok.tokenise(ws)
         for t in tokens:
             for part in t.split("-"):
